@@ -103,6 +103,7 @@ def make_model(vec, dims=2):
             self.bounds = {"id": [0.0, 1024.0], "y": [-2.0, 2.0]}
             self.calls = []
             self.prior_calls = []
+            self.uprior_calls = []
             self._vec = vec
 
         def to_unit_hypercube(self, x):
@@ -118,11 +119,20 @@ def make_model(vec, dims=2):
             return y
 
         def log_prior(self, x):
+            # an exactly rounded stand-in "prior" (2*id + 1) so that a mixed-up wrapper is visible
             if x.ndim == 0 or x.shape == ():
                 self.prior_calls.append([float(x["id"])])
-                return 0.0
+                return float(x["id"]) * 2.0 + 1.0
             self.prior_calls.append([float(v) for v in np.atleast_1d(x["id"])])
-            return np.zeros(x.size)
+            return np.atleast_1d(x["id"]) * 2.0 + 1.0
+
+        def log_prior_unit_hypercube(self, x):
+            # distinct from log_prior: 5*id + 2 evaluated from the unit-cube coordinate
+            if x.ndim == 0 or x.shape == ():
+                self.uprior_calls.append([float(x["id"]) * 1024.0])
+                return float(x["id"]) * 1024.0 * 5.0 + 2.0
+            self.uprior_calls.append([float(v) * 1024.0 for v in np.atleast_1d(x["id"])])
+            return np.atleast_1d(x["id"]) * 1024.0 * 5.0 + 2.0
 
         def log_likelihood(self, x):
             if not self._vec:
@@ -137,7 +147,7 @@ def make_model(vec, dims=2):
     return M()
 
 
-def run_model_layer(n, vec, chunk, pool_n, unit, which):
+def run_model_layer(n, vec, chunk, pool_n, unit, which, par_prior=True):
     """real Model.batch_evaluate_* on live points with ids 0..n-1"""
     from nessai.livepoint import numpy_array_to_live_points
     from nessai.utils.multiprocessing import initialise_pool_variables
@@ -145,11 +155,12 @@ def run_model_layer(n, vec, chunk, pool_n, unit, which):
     m.likelihood_chunksize = chunk
     m.vectorised_likelihood = vec
     m.vectorised_prior = vec
+    m.vectorised_prior_unit_hypercube = vec
     m.allow_vectorised = True
     if pool_n is not None:
         m.pool = FakePool(pool_n)
         m.n_pool = pool_n
-        m.parallelise_prior = True
+        m.parallelise_prior = par_prior
         initialise_pool_variables(m)
     arr = np.stack([np.arange(n, dtype=float), np.linspace(-1, 1, n) if n else np.zeros(0)], axis=1)
     x = numpy_array_to_live_points(arr, m.names)
@@ -159,11 +170,15 @@ def run_model_layer(n, vec, chunk, pool_n, unit, which):
         if which == "ll":
             out = m.batch_evaluate_log_likelihood(xin, unit_hypercube=unit)
             calls = m.calls
+        elif which == "uprior":
+            out = m.batch_evaluate_log_prior_unit_hypercube(m.to_unit_hypercube(x))
+            calls = m.uprior_calls
         else:
             out = m.batch_evaluate_log_prior(xin, unit_hypercube=unit)
             calls = m.prior_calls
     except Exception as e:  # noqa
         return _exc(e), None, [], 0
+    run_model_layer.last_pool_maps = m.pool.map_calls if pool_n is not None else 0
     # ids come back through an affine map in unit mode: round to the nearest integer for the
     # comparison of the call structure, the oracle checks the values exactly where it can
     canon = fmt([[round(v) for v in c] for c in calls])
@@ -226,10 +241,12 @@ def correspond(ctx):
             for pool_n in [None, 1, 3]:
                 for vec in [True, False]:
                     for unit in [False, True]:
-                        for which in ["ll", "prior"]:
-                            case = dict(layer="Model." + which, n=n, vec=vec, chunk=chunk, pool=pool_n, unit=unit)
-                            canon, out, calls, delta = run_model_layer(n, vec, chunk, pool_n, unit, which)
-                            key = "Model.batch_evaluate_log_" + ("likelihood" if which == "ll" else "prior")
+                        for which, par in [("ll", True), ("prior", True), ("prior", False), ("uprior", True), ("uprior", False)]:
+                            if which == "uprior" and unit:
+                                continue
+                            case = dict(layer="Model." + which, n=n, vec=vec, chunk=chunk, pool=pool_n, unit=unit, parallelise_prior=par)
+                            canon, out, calls, delta = run_model_layer(n, vec, chunk, pool_n, unit, which, par)
+                            key = "Model.batch_evaluate_log_" + {"ll": "likelihood", "prior": "prior", "uprior": "prior_unit_hypercube"}[which]
                             if out is None:
                                 ctx.oracle_fail(key, f"batch interface raised {canon} on a supported configuration", case)
                                 continue
@@ -247,15 +264,21 @@ def correspond(ctx):
                             else:
                                 if delta != 0:
                                     ctx.oracle_fail(key + ".counter", "prior evaluation changed the likelihood counter", case)
+                                want = np.array([(5.0 * i + 2.0) if which == "uprior" else (2.0 * i + 1.0) for i in range(n)])
+                                if not np.array_equal(np.asarray(out, dtype=float).reshape(-1), want):
+                                    ctx.oracle_fail(key, f"batch prior differs from pointwise evaluation of the same function: {np.asarray(out).tolist()} vs {want.tolist()}", case)
+                                if pool_n is not None and not par and run_model_layer.last_pool_maps:
+                                    ctx.oracle_fail(key, "prior evaluated through the pool although parallelise_prior is False", case)
                             if [round(v) for v in flat] != list(range(n)) or any(abs(v - round(v)) > 1e-9 for v in flat):
                                 ctx.oracle_fail(key, f"points not evaluated once in order at the physical point: {calls}", case)
-                            # model line: prior ignores chunksize
+                            # model line: prior ignores chunksize, and the pool unless parallelise_prior
                             ch = chunk if which == "ll" else None
+                            use_pool = pool_n is not None and (which == "ll" or par)
                             lines.append(f"bat calls {int(vec)} {'none' if ch is None else ch} "
-                                         f"{int(pool_n is not None)} {'none' if pool_n is None else pool_n} {n}")
+                                         f"{int(use_pool)} {pool_n if use_pool else 'none'} {n}")
                             impls.append(canon)
                             cases.append(case)
-                            ctx.case(("model", n, vec, chunk, pool_n, unit, which), n >= 1, case if n == 3 else None, kind="Model." + which)
+                            ctx.case(("model", n, vec, chunk, pool_n, unit, which, par), n >= 1, case if n == 3 else None, kind="Model." + which)
     ctx.diff_model(lines, impls, cases)
     if not ctx.quick:
         real_pools(ctx)
